@@ -55,6 +55,12 @@ MARKER_PROPS = {
     "VF:result.into_owned": ["C14", "C01"],
     "VF:tuple.into_owned": ["C14", "C01"],
     "VF:intoowned.": ["C14"],
+    "VF:wrapped.": ["C15"],
+    "VF:wrapped.into_owned": ["C14"],
+    "VF:wrapped.clone_onto": ["C14"],
+    "VF:wrapped.borrow_as": ["C14"],
+    "VF:wrapped.region_to_region": ["C14", "C20"],
+    "VF:cmp.": ["C15"],
     "VF:intoowned.slice.region_to_region": ["C14", "C20"],
     "VF:intoowned.columns.region_to_region": ["C14", "C20"],
     "VF:intoowned.nested.region_to_region": ["C14", "C20"],
